@@ -136,7 +136,7 @@ Section Back.
 
   Lemma command_placed v : cmd_shape T v -> placed (oe_command T v) (tree_of v).
   Proof.
-    intros (tagn & tagz & szn & szz & ccn & cc & hty & hx & pty & pv & Lh & Lp & Wh & Wp & Hv).
+    intros (cc & tagn & tagz & szn & szz & ccn & hty & hx & pty & pv & Lh & Lp & Wh & Wp & Hv).
     destruct (natural_all T) as (NT & _).
     pose proof (area_named T Hnm cc hty (or_introl Lh)) as Nh. pose proof (area_named T Hnm cc pty (or_intror (or_introl Lp))) as Np.
     pose proof (proj1 (dict_all T) hty Nh hx Wh) as Ph. pose proof (wshp_placed pty pv Np Wp) as Pp.
@@ -164,7 +164,7 @@ Section Back.
     intros Hs. pose proof (command_placed v Hs) as Hp.
     unfold events_to_obj. rewrite events_to_dict_build. change root_path with [mkNode "" None].
     rewrite (placed_blk (oe_command T v) (tree_of v) "" [] Hp eq_refl). cbn [app lookupS String.eqb].
-    destruct Hs as (tagn & tagz & szn & szz & ccn & cc & hty & hx & pty & pv & Lh & Lp & Wh & Wp & Hv).
+    destruct Hs as (cc & tagn & tagz & szn & szz & ccn & hty & hx & pty & pv & Lh & Lp & Wh & Wp & Hv).
     pose proof (area_named T Hnm cc hty (or_introl Lh)) as Nh. pose proof (area_named T Hnm cc pty (or_intror (or_introl Lp))) as Np.
     pose proof (proj1 (to_obj_all T) hty Nh (area_plain cc hty (or_introl Lh)) hx Wh) as Bh.
     pose proof (wshp_back pty pv Np (area_plain cc pty (or_intror (or_introl Lp))) Wp) as Bp.
